@@ -162,8 +162,7 @@ Inductive event :=
 | EvSend                  (* a request reached the transport *)
 | EvCli (i : nat)         (* user client-level response middleware i invoked *)
 | EvReq (i : nat)         (* request-level response middleware i invoked *)
-| EvCond | EvHook         (* retry condition evaluated / retry hook run *)
-| EvOnError.              (* client error hook invoked *)
+| EvCond | EvHook.        (* retry condition evaluated / retry hook run *)
 
 Record config := mkCfg {
   c_targets  : targets;
@@ -346,26 +345,13 @@ Definition do_deferred (ro : option response) (e : option err) : option response
 Definition clear_for_retry (r : response) : response :=
   set_error ENone (set_result false (set_cached false r)).
 
-Inductive do_result :=
-| DoRet (resp : option response) (e : option err) (log : list event)
-| DoOutOfFuel.
-
-Definition prepend (l : list event) (d : do_result) : do_result :=
-  match d with
-  | DoRet r e l' => DoRet r e (l ++ l')
-  | DoOutOfFuel => DoOutOfFuel
-  end.
-
-Definition ret_deferred (ro : option response) (e : option err) (l : list event) : do_result :=
-  let '(r, e') := do_deferred ro e in DoRet r e' l.
-
 (* right after the round trip (C18 fix): a wrapping round-tripper may have returned a nil
    response or an error it did not record *)
 Definition normalise (ro : option response) (e : option err) : response :=
   let r0 := match ro with Some r => r | None => fresh_resp end in
   match e, r_err r0 with Some x, None => set_err (Some x) r0 | _, _ => r0 end.
 
-(* "absolutely cannot retry" / "no retry is needed": true = leave the loop.  Returns the
+(* "absolutely cannot retry" / "no retry is needed": false = leave the loop.  Returns the
    events of evaluating the (single) custom condition too. *)
 Definition retry_decision (cfg : config) (a : attempt) (n : Z) (e : option err) : bool * list event :=
   match c_retry cfg with
@@ -375,33 +361,57 @@ Definition retry_decision (cfg : config) (a : attempt) (n : Z) (e : option err) 
     else if conds then (a_cond a, [EvCond]) else (is_some e, [])
   end.
 
-(* the loop of do(); [n] = r.RetryAttempt, [prev] = the named result resp on entry of the iteration *)
+(* one iteration of the loop of do(): either a `return` (the values of the named results
+   resp, err at that point) or the decision to go round again with resp = r *)
+Inductive step :=
+| Stop (ro : option response) (e : option err)
+| Again (r : response).
+
+(* [n] = r.RetryAttempt, [prev] = the named result resp on entry of the iteration *)
+Definition do_attempt (fl : flavour) (cfg : config) (a : attempt) (n : Z) (prev : option response)
+  : step * list event :=
+  let '(e_ud, l_ud) := run_before (a_ud a) 0 in
+  match e_ud with
+  | Some e => (Stop prev (Some e), l_ud)
+  | None =>
+  match a_bi a with
+  | Some e => (Stop prev (Some e), l_ud)
+  | None =>
+    let '(ro, e, l_rt) := wrapped_round_trip fl cfg a in
+    let r1 := normalise ro e in
+    let '(r2, e_mw, l_req) := run_req fl cfg (a_req a) 0 r1 in
+    let l := l_ud ++ l_rt ++ l_req in
+    match e_mw with
+    | Some x => (Stop (Some r2) (Some x), l)
+    | None =>
+      (* cf4fbf7: err keeps the round trip's value *)
+      let '(again, l_c) := retry_decision cfg a n e in
+      if again then (Again (clear_for_retry r2), l ++ l_c ++ [EvHook])
+      else (Stop (Some r2) e, l ++ l_c)
+    end
+  end
+  end.
+
+(* the result of do(): the response and error after the deferred function, and the
+   invocation log of every iteration *)
+Inductive do_result :=
+| DoRet (resp : option response) (e : option err) (logs : list (list event))
+| DoOutOfFuel.
+
+Definition prepend (l : list event) (d : do_result) : do_result :=
+  match d with
+  | DoRet r e ls => DoRet r e (l :: ls)
+  | DoOutOfFuel => DoOutOfFuel
+  end.
+
 Fixpoint do_loop (fl : flavour) (cfg : config) (attempts : list attempt) (n : Z) (prev : option response)
   : do_result :=
   match attempts with
   | [] => DoOutOfFuel
   | a :: rest =>
-    let '(e_ud, l_ud) := run_before (a_ud a) 0 in
-    match e_ud with
-    | Some e => ret_deferred prev (Some e) l_ud
-    | None =>
-    match a_bi a with
-    | Some e => ret_deferred prev (Some e) l_ud
-    | None =>
-      let '(ro, e, l_rt) := wrapped_round_trip fl cfg a in
-      let r1 := normalise ro e in
-      let '(r2, e_mw, l_req) := run_req fl cfg (a_req a) 0 r1 in
-      let l := l_ud ++ l_rt ++ l_req in
-      match e_mw with
-      | Some x => ret_deferred (Some r2) (Some x) l
-      | None =>
-        (* cf4fbf7: err keeps the round trip's value *)
-        let '(again, l_c) := retry_decision cfg a n e in
-        if again
-        then prepend (l ++ l_c ++ [EvHook]) (do_loop fl cfg rest (n + 1) (Some (clear_for_retry r2)))
-        else ret_deferred (Some r2) e (l ++ l_c)
-      end
-    end
+    match do_attempt fl cfg a n prev with
+    | (Stop ro e, l) => let '(r, e') := do_deferred ro e in DoRet r e' [l]
+    | (Again r, l) => prepend l (do_loop fl cfg rest (n + 1) (Some r))
     end
   end.
 
@@ -412,8 +422,9 @@ Inductive entry := EDo | ESend | EMust.
 Record program := mkProg { p_entry : entry; p_cfg : config; p_attempts : list attempt }.
 
 Inductive outcome :=
-| Returned (resp : option response) (e : option err) (log : list event)   (* e: the returned error (None for Do) *)
-| Panicked (e : err) (log : list event)                                   (* Must*: panic(err) *)
+| Returned (resp : option response) (e : option err) (logs : list (list event)) (hooks : nat)
+    (* e: the returned error (None for Do); hooks: how many times client.onError ran *)
+| Panicked (e : err) (logs : list (list event)) (hooks : nat)      (* Must-style: panic(err) *)
 | OutOfFuel.
 
 (* Request.Do *)
@@ -426,19 +437,19 @@ Definition do_call (fl : flavour) (cfg : config) (attempts : list attempt) : do_
 Definition resp_err (ro : option response) : option err :=
   match ro with Some r => r_err r | None => None end.
 
-(* Request.Send (and Get/Post/..., which only fix the method), Must* *)
+(* Request.Send (and Get/Post/..., which only fix the method), Must-style wrappers *)
 Definition run (fl : flavour) (p : program) : outcome :=
   match do_call fl (p_cfg p) (p_attempts p) with
   | DoOutOfFuel => OutOfFuel
-  | DoRet ro _ l =>
+  | DoRet ro _ ls =>
     match p_entry p with
-    | EDo => Returned ro None l
+    | EDo => Returned ro None ls 0
     | ESend | EMust =>
       let e := resp_err ro in
-      let l' := if is_some e && c_onerror (p_cfg p) then l ++ [EvOnError] else l in
+      let h := if is_some e && c_onerror (p_cfg p) then 1%nat else 0%nat in
       match p_entry p, e with
-      | EMust, Some x => Panicked x l'
-      | _, _ => Returned ro e l'
+      | EMust, Some x => Panicked x ls h
+      | _, _ => Returned ro e ls h
       end
     end
   end.
